@@ -6,7 +6,8 @@ logging.disable(logging.CRITICAL)
 pid = sys.argv[1]
 mod = importlib.import_module('harness.props.' + pid.lower())
 P = mod.PROP
-rng = random.Random('%s/%s/%s' % (P.id, 0, 'quick'))
+import os
+rng = random.Random('%s/%s/%s' % (P.id, os.environ.get('VERIF_SEED', '0'), 'quick'))
 cases = list(P.cases(rng, 'quick'))
 res = core.run_cases(P, cases)
 seen = set()
